@@ -41,7 +41,25 @@ impl Ctx {
     }
 }
 
+/// a `log` backend that accepts everything and prints nothing: with it installed the arguments of
+/// the library's `debug!` / `trace!` statements are evaluated whenever the level allows it; the
+/// level is switched per case (build_case), because nothing the library computes may depend on it
+struct NullLog;
+impl log::Log for NullLog {
+    fn enabled(&self, _: &log::Metadata) -> bool {
+        true
+    }
+    fn log(&self, r: &log::Record) {
+        // formatting the arguments is what evaluates them
+        let _ = format!("{}", r.args());
+    }
+    fn flush(&self) {}
+}
+static NULL_LOG: NullLog = NullLog;
+
 fn main() {
+    let _ = log::set_logger(&NULL_LOG);
+    log::set_max_level(log::LevelFilter::Off);
     let args: Vec<String> = std::env::args().collect();
     if args.len() < 2 {
         eprintln!("usage: xsgh <property|tool> [--tier quick|thorough] [--seed N] [--out DIR] ...");
